@@ -68,7 +68,8 @@ def gen_case(ch: Chooser, tier: str = "quick") -> dict:
                     rhs = ["lit", ch.pick([3, 7, 10]), 10]
                 body.append(["decl", "Signal", nm, ["bin", op, ["var", ch.pick(locs)], rhs]])
                 locs.append(nm)
-            kind = ch.weighted([(5, "plain"), (2, "mem"), (2, "place"), (2 if funcs else 0, "nested")])
+            sig_funcs = [f_ for f_ in funcs if f_[4] != ["var", "lamp"]]
+            kind = ch.weighted([(5, "plain"), (2, "mem"), (2, "place"), (2 if sig_funcs else 0, "nested")])
             if kind == "mem":
                 stateful = True
                 body.append(["mem", "cnt", "signal-C"])
@@ -83,7 +84,7 @@ def gen_case(ch: Chooser, tier: str = "quick") -> dict:
                 body.append(["enable", "lamp", ["bin", ch.pick(lang.CMP_OPS), ["var", ch.pick(locs)],
                                                 ["lit", ch.i32_biased(-20, 20), 10]]])
             elif kind == "nested":
-                inner = ch.pick(funcs)
+                inner = ch.pick(sig_funcs)
                 args = _args(ch, inner, locs, has_k, g, row, inside=True)
                 body.append(["decl", "Signal", "inner", ["call", inner[1], args]])
                 locs.append("inner")
